@@ -84,7 +84,8 @@ class JSONEncoder(json.JSONEncoder):
 
 def _load_docstring(obj_dict: dict) -> Docstring | None:
     if "docstring" in obj_dict:
-        return Docstring(**obj_dict["docstring"])
+        # The parsed sections of full dumps are not loaded: they are parsed again on demand.
+        return Docstring(**{key: value for key, value in obj_dict["docstring"].items() if key != "parsed"})
     return None
 
 
@@ -276,7 +277,10 @@ def json_decoder(obj_dict: dict[str, Any]) -> dict[str, Any] | Object | Alias | 
         try:
             kind = Kind(obj_dict["kind"])
         except ValueError:
-            return _load_parameter(obj_dict)
+            # Parameters have a name, contrary to the docstring sections of full dumps, which have a kind too.
+            if "name" in obj_dict:
+                return _load_parameter(obj_dict)
+            return obj_dict
         return _loader_map[kind](obj_dict)
 
     # Return dict as is.
